@@ -40,13 +40,14 @@ PROPS = {
             'Builder::{configure, register_*, with_service_name, build_v1, build_v1alpha} (impl Trait return types) are not under contract',
         ]),
     'C02': dict(
-        units=['encode', 'decode', 'status', 'reqresp', 'metadata', 'clientglue', 'serverglue', 'errmap'], level='proof',
+        units=['encode', 'decode', 'status', 'reqresp', 'metadata', 'clientglue', 'serverglue', 'errmap', 'tbody'], level='proof',
         witness=[dict(append_to='tonic/src/status.rs', module='replay/status_witness.rs', crate='tonic', filter='verif_witness_status', features=['--features', 'gzip,deflate,zstd']), dict(append_to='tonic/src/codec/decode.rs', module='replay/decode_witness.rs', crate='tonic', filter='verif_witness_decode', features=['--features', 'gzip,deflate,zstd'])],
         not_covered=[
             'decided here: the hand-off of status / trailers / metadata at both ends (encode, decode, status units) AND the call-shape glue: client Grpc::{prepare_request, create_response, streaming, client_streaming, unary, server_streaming} and server Grpc::{map_request_unary, map_request_streaming, map_response, unary, server_streaming, client_streaming, streaming} as sequential async code (Verus treats .await as a call)',
             'the glue is proved RELATIVE to assumed interfaces: the transport (GrpcService: ghost log of requests + the answer its future resolves to), the handler (respond(): its answer is a function of handler and request), the Codec, and the Streaming stream API (try_next / trailers as functions nxt / trl of the stream state, A-tonic-decode-02); Streaming::message / Streaming::trailers are under contract in unit decode (message() is what the REAL poll_next answers when driven to readiness: await of poll_fn modelled as a poll-until-ready loop, A-future-04), but the glue units still see the stream through nxt / trl, not through those contracts',
             'the HTTP/2 transport between the two ends (hyper/h2): that the client http::Response carries the status line, headers, DATA and trailers the server produced, under any fragmentation and interleaving; task scheduling (the property quantifies over readiness interleavings: covered only per poll call by the ghost-history contracts of encode / decode)',
             'a status raised inside the server stack as a boxed error (a Status anywhere in the cause chain) leaves it as a trailers-only response spelling that status (unit errmap: RecoverError); on the client, Status::from_error_generic is linked into unit clientglue as a callee contract (lemma_transport_error_is_what_it_means: a call whose transport fails returns the status the error means)',
+            'tonic::body::Body (body.rs): empty / from_kind / poll_frame / is_end_stream are under contract (unit tbody: an empty body has no frames, a wrapping body yields exactly what the wrapped body yields); Body::new (the `dyn Any` downcasts that avoid double boxing) is not, and the dispatcher units see a body through an uninterpreted erasure function (A-tonic-body-01)',
             'the generated code that picks the call shape (tonic-build output) is not under contract; server Grpc::apply_compression_config is (unit serverglue, G7, with the reference pattern of its for loop rewritten by R22)',
         ]),
     'C16': dict(
